@@ -167,12 +167,25 @@ def run_one(args):
     from sa.report import AnalysisError
     res = {}
     ov = {"src/htstabilizer/" + m["file"]: m["text"]}
+    import signal
+
+    class _TO(BaseException):
+        pass
+
+    def _alarm(signum, frame):
+        raise _TO()
+    signal.signal(signal.SIGALRM, _alarm)
     for p in props:
         try:
+            signal.alarm(180)
             rep, _ = run_property(p, "quick", root, overlay=ov, quiet=True)
+            signal.alarm(0)
             o = rep.outcome()
             res[p] = [o, (rep.new_findings()[0].rule + ": " + rep.new_findings()[0].what[:200]) if o == "violation" else ""]
+        except _TO:
+            res[p] = ["TIMEOUT", "more than 180 s"]
         except AnalysisError as e:
+            signal.alarm(0)
             res[p] = ["refused", str(e)[:200]]
         except Exception as e:   # noqa
             import traceback
@@ -202,10 +215,12 @@ def main():
     os.environ["SA_EVAL_CACHE"] = cache
     jobs = [(a.root, m, a.props.split(",") if a.props else RELEVANT[m["file"]]) for m in ms]
     with concurrent.futures.ProcessPoolExecutor(max_workers=16) as ex, open(a.out, "w") as fh:
-        for i, r in enumerate(ex.map(run_one, jobs, chunksize=4)):
-            fh.write(json.dumps(r) + "\n")
+        futs = [ex.submit(run_one, j) for j in jobs]
+        for i, fu in enumerate(concurrent.futures.as_completed(futs)):
+            fh.write(json.dumps(fu.result()) + "\n")
+            fh.flush()
             if i % 100 == 0:
-                print(i, file=sys.stderr)
+                print(i, file=sys.stderr, flush=True)
     shutil.rmtree(cache, ignore_errors=True)
     print("written", a.out, file=sys.stderr)
 
